@@ -1,7 +1,97 @@
+(* C18 — Restart is transparent.  Statements only; every proof is [exact lemma].
+
+   The model (Model.v) is the code with fixes/C18-webhooks-load-on-start.patch,
+   fixes/C18-renew-drops-cleared-roots.patch and fixes/C09-settings-cache-after-store.patch
+   applied.  Two behaviours of the unchanged code violate the full statement and are kept
+   in the model as they are (known findings, reproduced by the harness as cases 0 and 1):
+   sector roots of contracts whose proof window has elapsed, and of renewed v2 contracts,
+   leave the store but stay in contracts.Manager's cache until the next start.
+
+   Full statement:  forall l, budgets (runs init l) = [] ->
+                      observe (restart (runs init l)) = observe (runs init l).
+   It is FALSE of the faithful model (c18_restart_refuted_expired, c18_restart_refuted_v2renew);
+   what holds is the statement for every history that does not contain one of those two
+   steps on a contract that has roots ([benign_run]).
+
+   Partial: only the current schema is modelled; migrations from older versions are an
+   abstract function here (the repository's TestMigrationConsistency covers the fixtures).
+   "No open budget/updater": a budget that is open at the stop is lost with the process in
+   the code as well (its reservation is in memory only); the theorem is about stops
+   between operations. *)
 From HostdBase Require Import Base.
 From HostdRestart Require Import Model Proofs.
+
+(* every operation keeps what the managers hold in memory equal to what a start would load:
+   sector-root cache, webhook map and scope tree, settings (with the revision), account
+   map, volumes, processed tip *)
+Theorem c18_coherence_partial : forall l,
+  benign_run init l = true -> coh (runs init l).
+Proof. exact (fun l H => runs_coh l init coh_init H). Qed.
+Print Assumptions c18_coherence_partial.
+
+Theorem c18_step_keeps_coherence : forall s o, coh s -> benign s o = true -> coh (fst (step s o)).
+Proof. exact step_coh. Qed.
+Print Assumptions c18_step_keeps_coherence.
+
+(* hence a restart between operations changes no observation — contracts' sector lists,
+   webhooks, settings and revision, balances, volumes, processed tip — and an event of any
+   scope is delivered to exactly the same hooks afterwards *)
+Theorem c18_restart_transparent_partial : forall l,
+  benign_run init l = true -> budgets (runs init l) = [] ->
+  observe (restart (runs init l)) = observe (runs init l) /\
+  forall e, deliver (mem (restart (runs init l))) e = deliver (mem (runs init l)) e.
+Proof. exact restart_after_history. Qed.
+Print Assumptions c18_restart_transparent_partial.
+
+Theorem c18_restart_transparent_state : forall s,
+  coh s -> budgets s = [] ->
+  observe (restart s) = observe s /\ forall e, deliver (mem (restart s)) e = deliver (mem s) e.
+Proof. exact restart_transparent. Qed.
+Print Assumptions c18_restart_transparent_state.
+
+(* the state after a restart is coherent again, whatever happened before *)
+Theorem c18_restart_establishes_coherence : forall s,
+  NoDup (map fst (d_roots (db s))) -> NoDup (map fst (d_hooks (db s))) -> coh (restart s).
+Proof. exact coh_restart. Qed.
+Print Assumptions c18_restart_establishes_coherence.
+
 Theorem c18_restart_idempotent : forall s, restart (restart s) = restart s.
 Proof. exact restart_idem. Qed.
 Print Assumptions c18_restart_idempotent.
-Example c18_nonvacuous : restart init = init.
-Proof. vm_compute. reflexivity. Qed.
+
+(* the scope tree rebuilt at start has exactly one node per (hook, scope) *)
+Theorem c18_scope_tree_rebuilt : forall hs, NoDup (map fst hs) -> tree_inv (build_tree hs) hs.
+Proof. exact build_tree_inv. Qed.
+Print Assumptions c18_scope_tree_rebuilt.
+
+(* opening a database that is at the current version leaves it alone *)
+Theorem c18_open_current_identity_partial : forall (data : Type) target init_new migrate v (d : data),
+  v = target -> v <> 0%N -> open_store target init_new migrate v d = Ok (v, d).
+Proof. exact open_current_identity. Qed.
+Print Assumptions c18_open_current_identity_partial.
+
+(* the known findings *)
+Theorem c18_restart_refuted_expired :
+  budgets (runs init expired_witness) = [] /\
+  observe (restart (runs init expired_witness)) <> observe (runs init expired_witness).
+Proof. exact restart_refuted_expired. Qed.
+Print Assumptions c18_restart_refuted_expired.
+
+Theorem c18_restart_refuted_v2renew :
+  budgets (runs init v2renew_witness) = [] /\
+  observe (restart (runs init v2renew_witness)) <> observe (runs init v2renew_witness).
+Proof. exact restart_refuted_v2renew. Qed.
+Print Assumptions c18_restart_refuted_v2renew.
+
+(* non-vacuity: a benign history with a v1 renewal, nested webhook scopes, two settings
+   revisions and a closed budget; the hook registered for "alerts" and "alerts/info"
+   receives an "alerts/info" event twice, before and after the restart *)
+Example c18_nonvacuous :
+  let l := [FormC 0 false 40; Commit 0 [3; 5]; RenewC 0 1 false 60; RegisterHook 1 [[1]; [1; 2]];
+            RegisterHook 2 [[]]; SetSettings 7; SetSettings 8; Credit 0 100; OpenBudget 0 0 40;
+            CommitBudget 0 10; Mine 3]%N in
+  benign_run init l = true /\ budgets (runs init l) = [] /\
+  deliver (mem (restart (runs init l))) [1; 2]%N = [1; 1; 2]%N /\
+  observe (runs init l) =
+    OState [(0, []); (1, [3; 5])]%N [(1, (1, [[1]; [1; 2]])); (2, (2, [[]]))]%N (1, 8)%N [(0, 90); (1, 0)]%N [] 3%N.
+Proof. vm_compute. repeat split; reflexivity. Qed.
